@@ -420,6 +420,7 @@ pub fn property() -> Property {
             "an inspection that reads a cell only uses arrays that already exist (reading creates undeclared arrays); function-call inspections only use functions whose bodies contain no RND, cell or call",
             "runs are bounded by 400 program-advancing calls",
         ],
+        fuzz: None,
         families,
         prelude: None,
         epilogue: None,
